@@ -215,7 +215,7 @@ class FullEngine(Engine):
                 cns = {getattr(i, "cname", None) for i in items}
                 if len(cns) == 1:
                     cn = cns.pop()
-                out.append((q, VSeq(T.seq_of(*[i.term for i in items]), cn, "list")))
+                out.append((q, self.new_list(q, T.seq_of(*[i.term for i in items]), cn)))
             elif all(isinstance(i, VInt) for i in items):
                 out.append((q, VOpaque("intlist")))
             else:
@@ -1011,6 +1011,10 @@ class FullEngine(Engine):
             q.assume(o.cond)
             q.trail.append(f"[{qualname.split('.')[-1]}:{o.label or oi}]")
             self.enter_outcome(q, o, p.st)
+            for (gname, gconst) in spec.ghosts:
+                # the callee's existential ghost becomes a ghost local of the caller (a wrapper can pass it on)
+                if "$" + gname not in q.env:
+                    q.env["$" + gname] = VInt(gconst) if gconst.sort().eq(Int) else VSeq(gconst)
             if o.exc == "*":
                 # any exit: continue normally with an unknown result, or with an (unspecified) exception
                 out.append((q.copy(), VRaise("Exception", f"from {qualname}")))
